@@ -62,7 +62,7 @@ def run(tier):
         specs.append((r["spec"], r["seed"]))
     # the selection model against Builder.find_files_to_add on the same trees
     for spec, seed in specs[: 40 if tier == "quick" else 600]:
-        if any(any(ord(c) < 32 for c in p) for p in spec["files"]): continue
+        if any(any(ord(c) < 32 or ord(c) > 255 for c in p) for p in spec["files"]): continue      # the model pipe is latin-1
         try:
             cases = selection_case(spec, seed)
         except Exception as e:  # noqa
